@@ -27,6 +27,8 @@ OPTSETS = [("rules-gas", []), ("norules-gas", ["-no-simplification"]), ("rules-s
 
 def const_blocks(vals):
     out = []
+    if common.replay_file():
+        return out
     for op in gen.BIN:
         for a in vals:
             for b in vals:
@@ -70,6 +72,7 @@ def run(tier):
         chain, _ = gen.enumerate_blocks(gen.rule_vocab(gen.C3), gen.RULE_SHAPES_CHAIN, 3)
         # every pair (binary operator, consumer operator) with every operand pattern: rules over instruction pairs
         pairs, _ = gen.enumerate_blocks(gen.rule_vocab(gen.C3), [["S", "T", "B", "O"], ["T", "U", "O"]], 3)
+        pairs = pairs + gen.shared_use_blocks(250, seed)      # a rewritten value with two uses
         blocks = basic + corpus.sample(ctx, 300, seed) + corpus.sample(chain, 800, seed) + corpus.sample(const_blocks(V13), 400, seed)
         wc = [("WordsCheck1q.cfg", "8-bit (reduced operand set)")]
     else:
@@ -78,7 +81,7 @@ def run(tier):
         chain, _ = gen.enumerate_blocks(gen.rule_vocab(gen.C3), gen.RULE_SHAPES_CHAIN, 3)
         blocks = basic + ctx + const_blocks(V13)
         wc = [("WordsCheck1.cfg", "8-bit"), ("WordsCheck2.cfg", "16-bit")]
-        pairs = chain            # chains of up to three operators: rules on only, validated where a rule fired
+        pairs = chain + gen.shared_use_blocks(4000, seed)    # chains of up to three operators, values with two uses: rules on only, validated where a rule fired
     hand = corpus.hand_blocks() + [p for _, _, p in cat]
     cmds = [{"cmd": "sfs", "text": t} for t in hand + blocks]
     # (M) the oracle is checked before it is believed
